@@ -109,9 +109,10 @@ class TokenFile:
         self.uri = uri
         self.path = path
         logging.debug("Writing token file %s", path)
+        if _verif.ACTIVE:
+            _verif.emit("tok.create.open", name=path.name)
         with path.open("wt") as fp:
             if _verif.ACTIVE:
-                _verif.emit("tok.create.open", name=path.name)
                 _verif.pause("create.opened")
             fp.write(f"{str(count)}\n{uri}\n")
         if _verif.ACTIVE:
